@@ -108,8 +108,11 @@ def walker_splice(ctx, plan, helpers, check_arms=None, probe=False):
     ts = fn.toks
     T, N, M = plan["targets"], plan["node"], plan["acc"]
     sp = U.Splice(fn)
-    U.add_attr(sp, "#[verifier::exec_allows_no_decreases_clause]", "attr:no_decreases")
-    U.add_contract(sp, C.AST_CONTRACTS["walk_node_for_targets"].replace("targets@", T + "@").replace("node)", N + ")"))
+    TERM = os.environ.get("VX_TERMINATION", "1") == "1"
+    if not TERM:
+        U.add_attr(sp, "#[verifier::exec_allows_no_decreases_clause]", "attr:no_decreases")
+    U.add_contract(sp, C.AST_CONTRACTS["walk_node_for_targets"].replace("targets@", T + "@").replace("node)", N + ")")
+                   + ("\n    decreases all_nodes(%s).len()" % N if TERM else ""))
     U.body_insert_start(sp,
                         "    proof { axiom_target_key_model(); }\n"
                         "    broadcast use lemma_flt_add, lemma_flt_one, lemma_flt_empty, lemma_add_assoc;\n"
@@ -117,6 +120,8 @@ def walker_splice(ctx, plan, helpers, check_arms=None, probe=False):
     goal = "%s@ =~= spec_walk(%s@, node0)" % (M, T)
     sp.before_tok(ts[plan["match"]], "assert(%s@ =~= flt(%s@, seq![node0])); " % (M, T), "ob:assert:self-node")
     obligations = [("assert:self-node", "the root node itself is kept iff its kind is wanted")]
+    if TERM:
+        obligations.append(("decreases:walk_node_for_targets", "termination: every recursive call is made on a node with strictly fewer nodes below it (measure all_nodes(node).len())"))
     for k, lp in enumerate(plan["loops"]):
         if probe:
             sp.after_tok(ts[lp["open"]], " proof { let vx_probe_%d: () = vx_it%d.seq(); } " % (k, k), "probe")
@@ -127,8 +132,12 @@ def walker_splice(ctx, plan, helpers, check_arms=None, probe=False):
                       "let ghost pre%d = %s@; " % (k, M), "ghost:pre")
         sp.before_tok(ts[lp["in"] + 1], "it%d: " % k, "loop:binder")
         sp.before_tok(ts[lp["open"]],
-                      "\n    invariant %s@ == pre%d + flt(%s@, %s(it%d.seq(), it%d.index@)),\n" % (M, k, T, h, k, k),
+                      "\n    invariant %s@ == pre%d + flt(%s@, %s(it%d.seq(), it%d.index@)),\n" % (M, k, T, h, k, k)
+                      + ("        %s(it%d.seq(), it%d.seq().len() as int).len() < all_nodes(%s).len(),\n" % (h, k, k, N) if TERM else ""),
                       "ob:inv:loop%d" % k)
+        if TERM:
+            # termination: the nodes below the current element are among the nodes of the whole sequence
+            sp.after_tok(ts[lp["open"]], " proof { lemma_%s_mono(it%d.seq(), it%d.index@ + 1, it%d.seq().len() as int); } " % (h, k, k, k), "ghost:term")
         obligations.append(("inv:loop%d" % k, "loop over `%s` in arm %s accumulates exactly the wanted nodes of the prefix (%s)" % (lp["expr"], lp["arm"], h)))
     for a in plan["arms"]:
         if probe:
